@@ -255,6 +255,7 @@ def run(ctx):
     skipper_steps_over_literals(ctx)
     header_names_not_macro_expanded(ctx)
     directive_arguments_keep_literals(ctx)
+    comment_scanner_reads_one_character_per_step(ctx)
 
 
 def manifest_keys(ctx):
@@ -534,3 +535,63 @@ def header_names_not_macro_expanded(ctx):
                         break
             ctx.ob("R09.8", "%s|expand_manifests#%d|guarded" % (short, i), ok, f.loc(c), "expand_manifests(%s): %s" % (show(c["a"][0]) if c.get("a") else "?", why))
     ctx.floor("R09.8", "expansions of a header-name operand", n, 2)
+
+
+def comment_scanner_reads_one_character_per_step(ctx):
+    """R09.10: skip_c_comment() looks for `*` `/`.  Its loops hold the current character in c and must examine EVERY
+    character as a possible `*`: each trip round the loop reads exactly one new character.  Reading a second one after a
+    `*` that was not followed by `/` skips the test of that character - `**/` is then not seen as the end of the
+    comment, and in a skipped group (the only user of the non-recording loop) the comment runs on over the following
+    #else / #endif.  (Seed S7-C09.)"""
+    db = ctx.db
+    ctx.rule("R09.10", "in every loop of skip_c_comment each path from the loop test back to the loop test calls get() exactly once (paths that return are exempt)")
+    f = db.fn(P + "skip_c_comment")
+    cfg = f.cfg
+    loops = [lp for lp in f.walk() if lp.get("k") in ("while", "for", "do")]
+    n = 0
+    for li, lp in enumerate(loops):
+        head = None
+        for y in walk(lp.get("c") or {}):
+            head = cfg.locate(y) if "i" in y else None
+            if head:
+                break
+        if head is None:
+            continue
+        hb = head[0]
+        body_nodes = {id(y) for y in walk(lp.get("body") or {})}
+        gets_in_block = {}
+        for c in f.walk():
+            if c.get("k") == "call" and callee_short(c) == "get" and id(c) in body_nodes:
+                loc = cfg.locate(c)
+                if loc:
+                    gets_in_block[loc[0]] = gets_in_block.get(loc[0], 0) + 1
+        # body entry: the successor of the head that lies in the body
+        body_blocks = set()
+        for y in walk(lp.get("body") or {}):
+            loc = cfg.locate(y) if "i" in y else None
+            if loc:
+                body_blocks.add(loc[0])
+        starts = [s for s in cfg.blocks[hb].succs if s is not None and (s in body_blocks)]
+        counts = set()
+        bad_path = None
+
+        def dfs(b, cnt, seen, path):
+            nonlocal bad_path
+            if b == hb:
+                counts.add(cnt)
+                if cnt != 1 and bad_path is None:
+                    bad_path = list(path)
+                return
+            if b in seen or b == cfg.exit or cfg.blocks[b].noret:
+                return
+            cnt2 = cnt + gets_in_block.get(b, 0)
+            for s in cfg.blocks[b].succs:
+                if s is not None:
+                    dfs(s, cnt2, seen | {b}, path + [b])
+        for s in starts:
+            dfs(s, 0, frozenset(), [])
+        n += 1
+        ok = counts == {1}
+        ctx.ob("R09.10", "skip_c_comment|loop#%d|one-get-per-iteration" % li, ok, f.loc(lp),
+               "get() calls on the paths round the loop: %s" % (sorted(counts) if counts else "no path returns to the test"))
+    ctx.floor("R09.10", "scanning loops of skip_c_comment", n, 2)
